@@ -201,6 +201,23 @@ def helper_shape(M, fn):
                 and body[1].body[0].targets[0].id == x and isinstance(body[2], ast.Return) \
                 and isinstance(body[2].value, ast.Name) and body[2].value.id == x:
             return c, ('emptyResult', list_of_one_member(M, body[1].body[0].value, c['cls']))
+    # x = [comp]; return x or [Z]      /      return [comp] or [Z]      (an empty list is the only falsy result)
+    def or_default(node):
+        if isinstance(node, ast.BoolOp) and isinstance(node.op, ast.Or) and len(node.values) == 2:
+            return node.values
+        return None
+    if len(body) == 2 and isinstance(body[0], ast.Assign) and len(body[0].targets) == 1 \
+            and isinstance(body[0].targets[0], ast.Name) and isinstance(body[1], ast.Return):
+        x = body[0].targets[0].id
+        c = comp_of(M, body[0].value)
+        od = or_default(body[1].value)
+        if c is not None and od and isinstance(od[0], ast.Name) and od[0].id == x:
+            return c, ('emptyResult', list_of_one_member(M, od[1], c['cls']))
+    if len(body) == 1 and isinstance(body[0], ast.Return):
+        od = or_default(body[0].value)
+        c = comp_of(M, od[0]) if od else None
+        if c is not None:
+            return c, ('emptyResult', list_of_one_member(M, od[1], c['cls']))
     return None
 
 
